@@ -56,6 +56,33 @@ type Case struct {
 	Amount  uint64  `json:"amount"`
 	Level   string  `json:"level,omitempty"`
 	Dbg     bool    `json:"dbg,omitempty"` // attach a recording debugger first
+	// Warm says what the engine object executed before: 0 nothing (fresh engine), 1 a spend with a
+	// complete transaction context, 2 scripts only, 3 a call that fails validation (no option at
+	// all), 4 a spend with a debugger attached, 5 a pre-genesis P2SH spend
+	Warm int `json:"warm,omitempty"`
+}
+
+// warmUp makes the calls an engine has seen before the one that counts; whatever they return or
+// throw is of no interest here.
+func warmUp(eng interpreter.Engine, kind int) {
+	defer func() { _ = recover() }()
+	one := func() *bscript.Script { return bscript.NewFromBytes([]byte{0x51}) }
+	m := ref.Tx{Version: 1, In: []ref.In{{TxID: make(pbt.Hex, 32), Vout: 1, Seq: 0xffffffff, Unlock: pbt.Hex{0x51}}}, Out: []ref.Out{{Sats: 1, Script: pbt.Hex{0x51}}}}
+	switch kind {
+	case 1:
+		_ = eng.Execute(interpreter.WithTx(ref.ToLib(m), 0, &bt.Output{Satoshis: 1, LockingScript: one()}), interpreter.WithForkID(), interpreter.WithAfterGenesis())
+	case 2:
+		_ = eng.Execute(interpreter.WithScripts(one(), one()))
+	case 3:
+		_ = eng.Execute()
+	case 4:
+		_ = eng.Execute(interpreter.WithTx(ref.ToLib(m), 0, &bt.Output{Satoshis: 1, LockingScript: one()}), interpreter.WithDebugger(&libexec.Recorder{}))
+	case 5:
+		redeem := []byte{0x51}
+		lock := append(append([]byte{0xa9, 0x14}, sgen.Hash160(redeem)...), 0x87)
+		m.In[0].Unlock = pbt.Hex{0x01, 0x51}
+		_ = eng.Execute(interpreter.WithTx(ref.ToLib(m), 0, &bt.Output{Satoshis: 1, LockingScript: bscript.NewFromBytes(lock)}), interpreter.WithP2SH())
+	}
 }
 
 func (c Case) options(dbg interpreter.Debugger) []interpreter.ExecutionOptionFunc {
@@ -138,7 +165,11 @@ func execute(c Case, dbg interpreter.Debugger) (r result) {
 			r.panicS = fmt.Sprintf("%v\n%s", x, debug.Stack())
 		}
 	}()
-	r.err = interpreter.NewEngine().Execute(c.options(dbg)...)
+	eng := interpreter.NewEngine()
+	if c.Warm != 0 {
+		warmUp(eng, c.Warm)
+	}
+	r.err = eng.Execute(c.options(dbg)...)
 	return r
 }
 
@@ -227,6 +258,7 @@ func check(ctx *pbt.Ctx, c Case) error {
 		return fmt.Errorf("panic (no debugger): %s", r2.panicS)
 	}
 	ctx.Labelf("ctx=%d", c.CtxKind)
+	ctx.Labelf("engine_used_before=%d", c.Warm)
 	ctx.Label("level=" + c.Level)
 	switch {
 	case c.Idx < 0:
@@ -342,6 +374,7 @@ func genCase(t *rapid.T) Case {
 		Seq:     rapid.SampledFrom([]uint32{0, 100, 1 << 22, 1 << 31, 0xfffffffe, 0xffffffff}).Draw(t, "seq"),
 		Amount:  uint64(rapid.IntRange(0, 2).Draw(t, "amount")),
 		Dbg:     rapid.IntRange(0, 4).Draw(t, "dbg") == 0,
+		Warm:    rapid.SampledFrom([]int{0, 0, 0, 1, 1, 2, 3, 4, 5}).Draw(t, "warm"),
 	}
 	if lc != nil {
 		c.Version, c.Lock32, c.Seq = lc.Version, lc.LockTime, lc.Seq
